@@ -1338,6 +1338,66 @@ func c06CheckForeign(c c06ForeignCase) engine.Result {
 	return res
 }
 
+// ---- scenario "foreign-section-grid" ----------------------------------------------------------------------
+
+type c06FSCase struct {
+	TableID int `json:"foreign_table_id"`
+}
+
+// "other complete sections before it": a complete section of EVERY other table_id in front of the table, with
+// body sizes from the smallest to the largest a section of that kind may have (1021 bytes for table ids 0..3,
+// 4093 for all others)
+func c06CheckFS(c c06FSCase) engine.Result {
+	var res engine.Result
+	sec := c06ReuseSections[c.TableID%len(c06ReuseSections)]
+	w := c06MakeWant(&sec)
+	lens := []int{9, 100, 1021}
+	if c.TableID >= 4 {
+		lens = append(lens, 1022, 1500, 2047, 2048, 4093)
+	}
+	for _, sl := range lens {
+		payload := append(ref.Pointer(0), ref.OtherSection(byte(c.TableID), sl-9)...)
+		payload = append(payload, sec.Bytes()...)
+		pre := "foreign-section-grid|"
+		res.Nontrivial++
+		res.Evals++
+		engine.Guard(&res, pre+"NewPMT", func() {
+			pmt, err := psi.NewPMT(payload)
+			if err != nil || pmt == nil {
+				res.Failf(pre+"NewPMT|error", "table_id %#x section_length %d in front of the table: %v", c.TableID, sl, err)
+				return
+			}
+			c06Verify(&res, pre+"NewPMT|", pmt, w, false)
+			if done, err := psi.PmtAccumulatorDoneFunc(payload); !done || err != nil {
+				res.Failf(pre+"PmtAccumulatorDoneFunc|complete-payload", "table_id %#x section_length %d: done=%v err=%v on the complete payload", c.TableID, sl, done, err)
+			}
+			if done, _ := psi.PmtAccumulatorDoneFunc(payload[:len(payload)-1]); done {
+				res.Failf(pre+"PmtAccumulatorDoneFunc|proper-prefix", "table_id %#x section_length %d: done on the payload without its last byte", c.TableID, sl)
+			}
+		})
+		var stream []byte
+		for i, rest := 0, payload; len(rest) > 0; i++ {
+			k := min(184, len(rest))
+			pk := ref.CarryPayload(0x64, i == 0, byte(i), rest[:k])
+			stream = append(stream, pk[:]...)
+			rest = rest[k:]
+		}
+		engine.Guard(&res, pre+"ReadPMT", func() {
+			pmt, err := psi.ReadPMT(bytes.NewReader(stream), 0x64)
+			if err != nil || pmt == nil {
+				res.Failf(pre+"ReadPMT|error", "table_id %#x section_length %d in front of the table, %d packets: %v", c.TableID, sl, len(stream)/188, err)
+				return
+			}
+			c06Verify(&res, pre+"ReadPMT|", pmt, w, false)
+		})
+		if len(res.Fail) > 6 {
+			break
+		}
+	}
+	res.Outcome(c.TableID)
+	return res
+}
+
 // ---- scenario "pointer-length-grid" -----------------------------------------------------------------------
 
 type c06GridCase struct {
@@ -1594,6 +1654,18 @@ func init() {
 					}
 				},
 				Check: c06CheckForeign, Batch: 4,
+			},
+			&engine.Enum[c06FSCase]{
+				Name: "foreign-section-grid",
+				Rule: "a complete section of EVERY other table_id (0x00, 0x01, 0x03..0xFE) in front of the table x section_length {9, 100, 1021} and, for table ids from 0x04 up (sections that may be 4093 bytes long), {1022, 1500, 2047, 2048, 4093}: NewPMT, the completion predicate on the complete payload and on the payload without its last byte, ReadPMT over 184-byte packets",
+				Gen: func(r *engine.Run, emit func(c06FSCase)) {
+					for t := 0; t < 0xFF; t++ {
+						if t != 2 {
+							emit(c06FSCase{t})
+						}
+					}
+				},
+				Check: c06CheckFS, Batch: 4,
 			},
 			&engine.Enum[c06GridCase]{
 				Name: "pointer-length-grid",
